@@ -629,6 +629,23 @@ pub fn user_unsub(sh: &Shared, s: usize) {
   }
 }
 
+/// ends subscription `s` by dropping a `utils::Using` guard around it — at the end of a scope, or
+/// (`unwind`) while a panic unwinds through that scope
+pub fn user_unsub_using(sh: &Shared, s: usize, unwind: bool) {
+  let sub = sh.lock().users.get(s).and_then(|u| u.sub.clone());
+  if let Some(sub) = sub {
+    if unwind {
+      let _ = std::panic::catch_unwind(std::panic::AssertUnwindSafe(move || {
+        let _guard = utils::Using::new(sub);
+        panic!("verif: unwinding through a Using guard");
+      }));
+    } else {
+      let guard = utils::Using::new(sub);
+      drop(guard);
+    }
+  }
+}
+
 pub fn parse_action(sh: &Shared, e: &Sexp) -> Option<Action> {
   if e.atom() == Some("unsub") {
     let sh = sh.clone();
@@ -639,6 +656,17 @@ pub fn parse_action(sh: &Shared, e: &Sexp) -> Option<Action> {
     let s = a.first()?.nat()?;
     let sh = sh.clone();
     return Some(Arc::new(move |_| user_unsub(&sh, s)));
+  }
+  if h == "sleep" {
+    // a slow consumer: the callback blocks its caller for K ms (virtual time in the concurrent harness)
+    let k = a.first()?.nat()? as u64;
+    return Some(Arc::new(move |_| vthread::sleep(std::time::Duration::from_millis(k))));
+  }
+  if h == "sub" {
+    // re-entrant arrival: a new subscriber (without reactions of its own) subscribes to PIPE from inside the callback
+    let o = pipe(sh, a.first()?)?;
+    let sh = sh.clone();
+    return Some(Arc::new(move |_| user_subscribe(&sh, &o, Vec::new())));
   }
   subject_action(sh, e)
 }
@@ -763,7 +791,12 @@ pub fn step(sh: &Shared, e: &Sexp) -> Option<()> {
       let r = parse_react(sh, &a[1])?;
       user_subscribe(sh, &o, r);
     }
-    "unsub" => user_unsub(sh, a[0].nat()?),
+    "unsub" => match a.get(1).and_then(|m| m.atom()) {
+      None => user_unsub(sh, a[0].nat()?),
+      Some("using") => user_unsub_using(sh, a[0].nat()?, false),
+      Some("unwind") => user_unsub_using(sh, a[0].nat()?, true),
+      _ => return None,
+    },
     "connect" => match sh.find(a[0].atom()?)? {
       Entry::Publish(p, conns) => {
         let c = p.connect();
